@@ -63,6 +63,8 @@ class Socket:
             if timeout != 0:
                 self.sock.settimeout(timeout)
             data = self.sock.recv(256)
+            while len(data) < 4:  # the length field (bytes 2-3) may arrive in a later segment
+                data += self.sock.recv(256)
             data_len = struct.unpack_from("<H", data, 2)[0]
             while len(data) - HEADER_SIZE < data_len:
                 data += self.sock.recv(256)
